@@ -32,9 +32,10 @@ type c02Case struct {
 
 func c02Gen(c *core.Ctx) func(yield func(c02Case) bool) {
 	return func(yield func(c02Case) bool) {
+		sliceOpt := false
 		emit := func(family string, n int, e [][]int) bool {
 			for _, desc := range []bool{false, true} {
-				p := scen.GraphProg{N: n, Edges: e, Family: family, Kinds: ""}
+				p := scen.GraphProg{N: n, Edges: e, Family: family, Kinds: "", SliceOpt: sliceOpt}
 				if desc {
 					p.Base = make([]int, n)
 					for i := range p.Base {
@@ -55,6 +56,19 @@ func c02Gen(c *core.Ctx) func(yield func(c02Case) bool) {
 				return
 			}
 		}
+		// the same with optional slices (a slice without members stays empty instead of failing)
+		sliceOpt = true
+		for n := 1; n <= 3; n++ {
+			ok := true
+			allGraphs(n, []int{scen.ENone, scen.EName, scen.ESlice}, true, func(e [][]int) bool {
+				ok = emit(fmt.Sprintf("optslice-n%d", n), n, e)
+				return ok
+			})
+			if !ok {
+				return
+			}
+		}
+		sliceOpt = false
 		// structured families, run completely
 		cyc := func(k, stride int, kind int) [][]int {
 			e := mkEdges(k)
@@ -190,7 +204,7 @@ func c02Run(c *core.Ctx) {
 		}
 		c.Outcome(p.Family + "/" + graphSig(o))
 		c.Sample(map[string]any{"program": p, "outcome": graphSig(o), "registry_calls": o.Trace.Calls, "peak_nesting": o.Trace.PeakDepth})
-		key := func(kind string) string { return "C02/" + kind + "/" + core.Hash(p.N, p.Edges, p.Base) }
+		key := func(kind string) string { return "C02/" + kind + "/" + core.Hash(p.N, p.Edges, p.Base, p.SliceOpt) }
 		switch {
 		case o.Abort != "":
 			c.Report(key("nonterm"), "non-termination", "start-up exceeded its budget: "+o.Abort, cs)
